@@ -6,6 +6,7 @@ import (
 	"fmt"
 	"net"
 	"os"
+	"path/filepath"
 	"os/exec"
 	"sort"
 	"strings"
@@ -58,6 +59,8 @@ type c14Case struct {
 	Target      int     `json:"target"`       // pod used for the Setup/Clean inverse law
 	Repeat      int     `json:"repeat"`       // >= 0: that pod (random ports only) is set up a second time without a teardown in between
 	OccupyIndex int     `json:"occupy_index"` // index of the explicit port the harness occupies for the failure path (-1 none)
+	// Galaxy != nil: the case is a request history against the galaxy daemon (c14g_test.go) instead of calls of the handler
+	Galaxy *c14gCase `json:"galaxy,omitempty"`
 }
 
 func genPMPod(t *rapid.T, name string, ipLast int, portBase *int) pmPod {
@@ -80,9 +83,20 @@ func genPMPod(t *rapid.T, name string, ipLast int, portBase *int) pmPod {
 	return p
 }
 
+// haveFakeCNI: the recording fake plugin binary was built next to the test binary (the driver does that for C14).
+func haveFakeCNI() bool {
+	_, err := os.Stat(filepath.Join(os.Getenv("VERIF_BIN_DIR"), "fakecni"))
+	return os.Getenv("VERIF_BIN_DIR") != "" && err == nil
+}
+
 func genC14() *rapid.Generator[c14Case] {
 	return rapid.Custom(func(t *rapid.T) c14Case {
 		c := c14Case{OccupyIndex: -1, Repeat: -1}
+		if haveFakeCNI() && rapid.IntRange(0, 2).Draw(t, "level") == 0 {
+			// a third of the cases runs against the daemon's request path
+			c.Galaxy = genC14G(t)
+			return c
+		}
 		if rapid.IntRange(0, 2).Draw(t, "repeat") == 0 {
 			c.Repeat = rapid.IntRange(0, 5).Draw(t, "repeatPod")
 		}
@@ -254,6 +268,9 @@ func nonHostport(tb *nf.Table) string {
 
 func checkC14(c c14Case, r *vcore.Rec) *vcore.Failure {
 	r.ClassIf(os.Getenv("VERIF_IN_NETNS") == "1", "private_netns")
+	if c.Galaxy != nil {
+		return checkC14G(c.Galaxy, r)
+	}
 	nExplicit := 0
 	for _, p := range append(append([]pmPod{}, c.Pods...), c.Others...) {
 		for _, pt := range p.Ports {
